@@ -192,7 +192,12 @@ def _plan(sc, builtin_ids):
             sites = [s for s in dry["result"]["sites"] if s[3] == index and s[0].startswith("fs/") and s[0].split("/")[1] in wanted_ops]
             if not sites:
                 continue
-            site = sites[int(fraction * len(sites)) % len(sites)]
+            replace_step = [s for s in sites if s[0].split("/")[1] in ("rename", "copymode", "chmod")]
+            if replace_step and fraction < 0.5:
+                # the step that puts the fixed content in place
+                site = replace_step[int(fraction * 2 * len(replace_step)) % len(replace_step)]
+            else:
+                site = sites[int(fraction * len(sites)) % len(sites)]
             entry = {"site": site[0], "file": site[1], "ord": site[2], "op": index, "act": "oserror:" + exc[0]}
             if exc[1]:
                 entry["sticky"] = True
